@@ -77,7 +77,7 @@ def _strategy(tier, name):
         fk = ["constant", "poly", "bumps", "spikes", "checker", "noise", "mixed", "boxnoise"]
         return {
             "kernel": name,
-            "shape": draw(gen.grid_shape(dim, 5, hi2 if dim == 2 else hi3)),
+            "shape": draw(gen.grid_shape(dim, 5, hi2 if dim == 2 else hi3, long_axis=70 if dim == 2 else 40)),
             "dtype": draw(gen.precisions),
             "threads": draw(st.sampled_from([False, 1, 2])),
             "field": draw(gen.vector_field_spec(3, kinds=fk, max_mag_exp=5)),
